@@ -22,7 +22,7 @@ MUTATING_METHODS = {"append", "extend", "insert", "pop", "remove", "clear", "sor
                     "setdefault", "popitem", "add", "discard", "difference_update", "intersection_update",
                     "symmetric_difference_update"}
 FROZEN_ATTRS = {"props", "_props", "_registry"}
-ALIAS_METHODS = {"get", "values", "items", "keys", "__getitem__"}   # return parts of the receiver
+ALIAS_METHODS = {"get", "values", "items", "keys", "__getitem__", "setdefault"}   # return parts of the receiver
 
 
 class Origins:
@@ -290,6 +290,8 @@ class Origins:
                 return self.origin(c.args[1], env)
             if f.id == "getattr" and c.args:
                 return self.origin(c.args[0], env) | ({FRESH} if len(c.args) > 2 else set())
+            if f.id == "vars" and c.args:
+                return self.origin(c.args[0], env)          # the object's own __dict__
         d = dotted(self.prog, self.fi.module, f, self.li)
         if d in COPYING_DOTTED:
             return {FRESH}
